@@ -13,6 +13,7 @@ import (
 	"fmt"
 	"go/token"
 	"go/types"
+	"regexp"
 	"strings"
 
 	"golang.org/x/tools/go/ssa"
@@ -25,6 +26,9 @@ type assignLoc struct {
 	ref func(tr *Translator) T
 	all bool // whole array
 	src string
+	// set-valued location: membership predicate and universally quantified check
+	pred   func(tr *Translator, r T) T
+	forall func(tr *Translator, cond func(T) T) T
 }
 
 // assignLocs resolves the assigns clause of con against the signature of fn.
@@ -48,6 +52,65 @@ func (p *Program) assignLocs(con *Contract, sig *types.Signature) (locs []assign
 			continue
 		case strings.HasPrefix(a, "H_") || strings.HasPrefix(a, "SH_") || strings.HasPrefix(a, "MH_") || strings.HasPrefix(a, "MD_") || strings.HasPrefix(a, "#") || strings.HasPrefix(a, "G_") || strings.HasPrefix(a, "Cell_") || a == "held":
 			locs = append(locs, assignLoc{array: a, all: true, src: a})
+			continue
+		}
+		if m := reForallLoc.FindStringSubmatch(a); m != nil {
+			v, sl, base, fld := m[1], m[2], m[3], m[4]
+			slE, e1 := parseExpr(sl)
+			baseE, e2 := parseExpr(base)
+			if e1 != nil || e2 != nil {
+				return nil, false, fmt.Errorf("assigns: cannot parse %q", a)
+			}
+			// static type of base: evaluate lazily; array name needs the field's struct: resolve through a dry translation later
+			loc := assignLoc{src: a}
+			mk := func(tr *Translator, idx T) (T, string, Sort) {
+				saved := tr.bound
+				nb := map[string]tv{}
+				for k, x := range saved {
+					nb[k] = x
+				}
+				nb[v] = tv{idx, tyInt}
+				tr.bound = nb
+				savedOld := tr.inOld
+				tr.inOld = true
+				b := tr.expr(baseE)
+				tr.inOld = savedOld
+				tr.bound = saved
+				_, arr, asort, err := p.fieldPathInfo(b.ty, []string{fld})
+				if err != nil {
+					tr.fail("%v", err)
+				}
+				return b.t, arr, asort
+			}
+			lenOf := func(tr *Translator) T {
+				savedOld := tr.inOld
+				tr.inOld = true
+				defer func() { tr.inOld = savedOld }()
+				return SLen(tr.expr(slE).t)
+			}
+			// the array is determined by the static type; find it with a probe on the parameter types
+			bt, perr := p.staticTypeOf(baseE, params, v)
+			if perr != nil {
+				return nil, false, perr
+			}
+			_, arr, asort, ferr := p.fieldPathInfo(bt, []string{fld})
+			if ferr != nil {
+				return nil, false, ferr
+			}
+			loc.array, loc.sort = arr, asort
+			loc.pred = func(tr *Translator, r T) T {
+				qcount++
+				iv := T{fmt.Sprintf("%s!q%d", v, qcount), SInt}
+				addr, _, _ := mk(tr, iv)
+				return T{fmt.Sprintf("(exists ((%s Int)) (and (<= 0 %s) (< %s %s) (= %s %s)))", iv.S, iv.S, iv.S, lenOf(tr).S, r.S, addr.S), SBool}
+			}
+			loc.forall = func(tr *Translator, cond func(T) T) T {
+				qcount++
+				iv := T{fmt.Sprintf("%s!q%d", v, qcount), SInt}
+				addr, _, _ := mk(tr, iv)
+				return T{fmt.Sprintf("(forall ((%s Int)) (=> (and (<= 0 %s) (< %s %s)) %s))", iv.S, iv.S, iv.S, lenOf(tr).S, cond(addr).S), SBool}
+			}
+			locs = append(locs, loc)
 			continue
 		}
 		contents := strings.HasSuffix(a, "[]")
@@ -220,10 +283,58 @@ func (tr *Translator) addrOfStruct(base Expr, parts []string) T {
 	return addr
 }
 
+var reForallLoc = regexp.MustCompile(`^forall (\w+) in (.+?): (.+)\.(\w+)$`)
+
+// staticTypeOf: Go type of a contract expression over parameters (and one int-typed bound variable).
+func (p *Program) staticTypeOf(e Expr, params map[string]types.Type, boundInt string) (types.Type, error) {
+	switch x := e.(type) {
+	case *EIdent:
+		if x.Name == boundInt {
+			return tyInt, nil
+		}
+		if t, ok := params[x.Name]; ok {
+			return t, nil
+		}
+	case *EIndex:
+		bt, err := p.staticTypeOf(x.X, params, boundInt)
+		if err != nil {
+			return nil, err
+		}
+		switch u := bt.Underlying().(type) {
+		case *types.Slice:
+			return u.Elem(), nil
+		case *types.Map:
+			return u.Elem(), nil
+		}
+	case *ESel:
+		bt, err := p.staticTypeOf(x.X, params, boundInt)
+		if err != nil {
+			return nil, err
+		}
+		ft, _, _, err := p.fieldPathInfo(bt, []string{x.F})
+		return ft, err
+	case *ECall:
+		switch x.Fn {
+		case "aserr":
+			return types.NewPointer(p.pkg.Types.Scope().Lookup("Error").Type()), nil
+		case "as":
+			tvv, err := types.Eval(p.fset, p.pkg.Types, token.NoPos, x.Raw[0])
+			if err == nil {
+				return tvv.Type, nil
+			}
+		}
+	}
+	return nil, fmt.Errorf("assigns: cannot type expression")
+}
+
 // frameFact: (forall r. r <= allocPre && r not in allowed ==> A'[r] = A[r])
 func frameFact(nv, old T, allocPre T, allowed []T) string {
 	guard := fmt.Sprintf("(<= r!f %s)", allocPre.S)
 	for _, a := range allowed {
+		if strings.HasPrefix(a.S, "PRED:") {
+			guard += " (not " + strings.ReplaceAll(a.S[5:], "r!PLACE", "r!f") + ")"
+			continue
+		}
 		guard += fmt.Sprintf(" (not (= r!f %s))", a.S)
 	}
 	return fmt.Sprintf("(assert (forall ((r!f Int)) (! (=> (and %s) (= (select %s r!f) (select %s r!f))) :pattern ((select %s r!f)))))", guard, nv.S, old.S, nv.S)
@@ -241,6 +352,10 @@ func (f *Frame) installFrameChecks(locs []assignLoc, alloc0 T) {
 				return true, nil
 			}
 			tr := &Translator{f: top, cur: top.entrySt, old: top.entrySt, allocOld: alloc0}
+			if l.pred != nil {
+				refs = append(refs, T{"PRED:" + l.pred(tr, T{"r!PLACE", SInt}).S, SBool})
+				continue
+			}
 			refs = append(refs, l.ref(tr))
 		}
 		return false, refs
@@ -252,6 +367,10 @@ func (f *Frame) installFrameChecks(locs []assignLoc, alloc0 T) {
 		}
 		ds := []T{Lt(alloc0, idx)}
 		for _, r := range refs {
+			if strings.HasPrefix(r.S, "PRED:") {
+				ds = append(ds, T{strings.ReplaceAll(r.S[5:], "r!PLACE", idx.S), SBool})
+				continue
+			}
 			ds = append(ds, Eq(idx, r))
 		}
 		return Or(ds...)
@@ -284,6 +403,10 @@ func (f *Frame) installFrameChecks(locs []assignLoc, alloc0 T) {
 					if whole, _ := allowedFor(l.array); !whole {
 						cur.oblige("frame", "call("+callee+")."+l.src, pos, False)
 					}
+					continue
+				}
+				if l.forall != nil {
+					cur.oblige("frame", "call("+callee+")."+l.src, pos, l.forall(tr, func(r T) T { return cond(l.array, r) }))
 					continue
 				}
 				cur.oblige("frame", "call("+callee+")."+l.src, pos, cond(l.array, l.ref(tr)))
